@@ -398,3 +398,63 @@ def pointer_findings(mod, fd, kind):
             if kind != "grouping" and isinstance(sub, ast.Call) and isinstance(sub.func, ast.Attribute) and sub.func.attr in ("get", "pop", "setdefault") and isinstance(sub.func.value, ast.Name) \
                     and sub.func.value.id in filled and sub.args and isinstance(sub.args[0], ast.Name) and sub.args[0].id in ptr_el:
                 yield ("W7", f"{ast.unparse(sub)[:60]}", sub.lineno, f"`{ast.unparse(sub)[:70]}` reads `{sub.func.value.id}` under another row's id while the same loop is still filling it: a row listed before the row it points to gets the default - the result depends on the row order")
+
+
+# ------------------------------------------------------------------ ids and pointers are not numbers
+def _is_pointer_name(nm):
+    return (nm.startswith("p_id_") or "_p_id_" in nm or nm in ("id_receiver", "foreign_key")) and not nm.endswith(("_to_position", "_dict"))
+
+
+def _is_id_name(nm):
+    return nm == "p_id" or nm.endswith("_id") or _is_pointer_name(nm)
+
+
+def id_value_findings(mod, fd):
+    """W8: a person pointer is compared with the sentinel only (`>= 0`, `< 0`, `== -1`, `!= -1`): 0 is a valid id.
+    W9: an id (or the result of an id look-up) is never used as a truth value (`id or default`, `if id:`).
+    yields (rule, key, lineno, message)"""
+    ok_forms = {(ast.GtE, 0), (ast.Lt, 0), (ast.Gt, -1), (ast.LtE, -1), (ast.Eq, -1), (ast.NotEq, -1)}
+    flip = {ast.Gt: ast.Lt, ast.Lt: ast.Gt, ast.GtE: ast.LtE, ast.LtE: ast.GtE, ast.Eq: ast.Eq, ast.NotEq: ast.NotEq}
+
+    def lit(e):
+        if isinstance(e, ast.Constant) and isinstance(e.value, int) and not isinstance(e.value, bool):
+            return e.value
+        if isinstance(e, ast.UnaryOp) and isinstance(e.op, ast.USub) and isinstance(e.operand, ast.Constant) and isinstance(e.operand.value, int):
+            return -e.operand.value
+        return None
+
+    def ptr_expr(e):
+        if isinstance(e, ast.Name):
+            return _is_pointer_name(e.id)
+        if isinstance(e, ast.Subscript) and isinstance(e.value, ast.Name):
+            return _is_pointer_name(e.value.id)
+        return False
+
+    def id_expr(e):
+        if isinstance(e, ast.Name):
+            return _is_id_name(e.id)
+        if isinstance(e, ast.Subscript) and isinstance(e.value, ast.Name):
+            return _is_id_name(e.value.id) or e.value.id.endswith("_id") or "_to_" in e.value.id and e.value.id.endswith("_id")
+        if isinstance(e, ast.Call) and isinstance(e.func, ast.Attribute) and e.func.attr == "get" and isinstance(e.func.value, ast.Name):
+            return e.func.value.id.endswith("_id")
+        return False
+
+    for n in ast.walk(fd):
+        if isinstance(n, ast.Compare) and len(n.ops) == 1:
+            l, r, op = n.left, n.comparators[0], type(n.ops[0])
+            if ptr_expr(r) and lit(l) is not None:
+                l, r, op = r, l, flip.get(op)
+            if ptr_expr(l) and lit(r) is not None and op is not None:
+                if (op, lit(r)) not in ok_forms:
+                    yield ("W8", ast.unparse(n), n.lineno, f"`{ast.unparse(n)}` compares a person pointer with {lit(r)} other than as the sentinel test (>= 0 / < 0 / == -1 / != -1): the person with id 0 is a valid person; a pointer to her is treated as nobody (the result changes when ids are relabelled)")
+        tests = []
+        if isinstance(n, ast.BoolOp):
+            tests = n.values[:-1] if isinstance(n.op, ast.Or) else n.values[:-1]
+            tests = list(n.values[:-1])
+        elif isinstance(n, (ast.If, ast.IfExp, ast.While)):
+            tests = [n.test]
+        elif isinstance(n, ast.UnaryOp) and isinstance(n.op, ast.Not):
+            tests = [n.operand]
+        for t in tests:
+            if id_expr(t):
+                yield ("W9", ast.unparse(t)[:60], t.lineno, f"`{ast.unparse(t)[:60]}` is an id used as a truth value (in `{ast.unparse(n)[:70]}`): 0 is a valid id and counts as false - the first person / first group of every data set is treated as missing")
